@@ -251,6 +251,23 @@ func genC16(g *gen, seed int64) *Program {
 	for i := 0; i < g.pick(4); i++ {
 		p.Cfg.Extra = append(p.Cfg.Extra, ExtraMethod{Svc: "sim.S", Meth: fmt.Sprintf("X%d", i), Kind: g.pick(4)})
 	}
+	// the same registered method reached through two different carriers
+	if len(p.RPCs) >= 2 && g.p(0.5) {
+		a, b := p.RPCs[0], p.RPCs[1]
+		if a.Transport == b.Transport {
+			for _, t := range []string{TInproc, THTTP, TGRPC} {
+				if t != a.Transport {
+					b.Transport = t
+					break
+				}
+			}
+		}
+		b.Svc, b.Meth, b.Call, b.Kind = a.Svc, a.Meth, a.Call, a.Kind
+		b.Client, b.Handler = nil, nil
+		g.plainScripts(b)
+		a.OutMD = append(a.OutMD, KV{K: "x-sim-rpc", V: RawStr(fmt.Sprint(a.ID))})
+		b.OutMD = append(b.OutMD, KV{K: "x-sim-rpc", V: RawStr(fmt.Sprint(b.ID))})
+	}
 	for _, r := range p.RPCs {
 		if g.p(g.k.pCancel) {
 			p.Faults = append(p.Faults, Fault{Kind: "cancel", RPC: r.ID, Step: g.pick(total + 5)})
